@@ -163,6 +163,7 @@ func runC36(c *Ctx) {
 	} else {
 		var top []string
 		bad := ""
+		ab := shapeBind{}
 		for _, st := range fn.Decl.Body.List {
 			switch v := st.(type) {
 			case *ast.AssignStmt:
@@ -175,13 +176,13 @@ func runC36(c *Ctx) {
 					body := strings.ReplaceAll(stmtText(p,v.Body.List[0]), " ", "")
 					switch {
 					case strings.HasSuffix(body, ".min=s.v") || strings.Contains(body, ".min="):
-						if t != "s.v<a.min" || !strings.HasSuffix(body, "a.min=s.v") {
+						if !matchShape("§s.v<§a.min", t, ab) || !matchShape("{§a.min=§s.v}", "{"+body+"}", ab) {
 							bad = "min is updated by `" + body + "` under `" + t + "`"
 						} else {
 							top = append(top, "min-ok")
 						}
 					case strings.Contains(body, ".max="):
-						if t != "s.v>a.max" || !strings.HasSuffix(body, "a.max=s.v") {
+						if !matchShape("§s.v>§a.max", t, ab) || !matchShape("{§a.max=§s.v}", "{"+body+"}", ab) {
 							bad = "max is updated by `" + body + "` under `" + t + "`"
 						} else {
 							top = append(top, "max-ok")
@@ -191,8 +192,14 @@ func runC36(c *Ctx) {
 			}
 		}
 		joined := strings.ReplaceAll(strings.Join(top, ";"), " ", "")
-		for _, want := range []string{"a.sum+=s.v", "a.count++", "a.total++", "min-ok", "max-ok", "a.last=s.v"} {
-			if !strings.Contains(joined, want) && bad == "" {
+		for _, want := range []string{"§a.sum+=§s.v", "§a.count++", "§a.total++", "min-ok", "max-ok", "§a.last=§s.v"} {
+			found := false
+			for _, part := range strings.Split(joined, ";") {
+				if part == want || (strings.HasPrefix(want, "§") && matchShape(want, part, ab)) {
+					found = true
+				}
+			}
+			if !found && bad == "" {
 				bad = "missing unconditional update `" + want + "`"
 			}
 		}
@@ -207,7 +214,11 @@ func runC36(c *Ctx) {
 				got[canon(as.Lhs[0])] = canon(as.Rhs[0])
 			}
 		}
-		want := map[string]string{"a.count": "0", "a.sum": "0", "a.min": "math.MaxFloat64", "a.max": "-math.MaxFloat64"}
+		rn := "a"
+		if fn.Decl.Recv != nil && len(fn.Decl.Recv.List) == 1 && len(fn.Decl.Recv.List[0].Names) == 1 {
+			rn = fn.Decl.Recv.List[0].Names[0].Name
+		}
+		want := map[string]string{rn + ".count": "0", rn + ".sum": "0", rn + ".min": "math.MaxFloat64", rn + ".max": "-math.MaxFloat64"}
 		bad := ""
 		for k, v := range want {
 			if got[k] != v {
@@ -327,25 +338,26 @@ func runC36(c *Ctx) {
 		c.Incomplete("window-arithmetic", rel+".downsampleBatch", "", "function not found")
 	} else {
 		bad := "window switch not found"
+		wb := shapeBind{}
 		ast.Inspect(fn.Body(), func(nd ast.Node) bool {
 			is, ok := nd.(*ast.IfStmt)
-			if !ok || canon(is.Cond) != "s.t>nextT" {
+			if !ok || !matchShape("§s.t>§nextT", canon(is.Cond), wb) {
 				return true
 			}
 			var order []string
 			for _, st := range is.Body.List {
 				t := strings.ReplaceAll(stmtText(p,st), " ", "")
 				switch {
-				case strings.HasPrefix(t, "add(nextT,"):
+				case prefixShape("§add(§nextT,", t, wb):
 					order = append(order, "emit")
 				case strings.HasSuffix(t, ".reset()"):
 					order = append(order, "reset")
-				case strings.HasPrefix(t, "nextT=min(") && strings.Contains(t, "currentWindow(s.t,resolution)") && strings.Contains(t, "lastT"):
+				case prefixShape("§nextT=min(", t, wb) && containsShape("currentWindow(§s.t,§resolution)", t, wb) && containsShape("§lastT", strings.SplitN(t, "currentWindow(", 2)[len(strings.SplitN(t, "currentWindow(", 2))-1], shapeBind{}):
 					order = append(order, "next")
 				case strings.HasPrefix(t, "nextT="):
 					order = append(order, "next?"+t)
 				}
-				if inner, ok := st.(*ast.IfStmt); ok && canon(inner.Cond) == "nextT!=-1" && len(inner.Body.List) == 1 && strings.HasPrefix(strings.ReplaceAll(stmtText(p,inner.Body.List[0]), " ", ""), "add(nextT,") {
+				if inner, ok := st.(*ast.IfStmt); ok && matchShape("§nextT!=-1", canon(inner.Cond), wb) && len(inner.Body.List) == 1 && prefixShape("§add(§nextT,", stmtText(p, inner.Body.List[0]), wb) {
 					order = append(order, "emit")
 				}
 			}
@@ -360,7 +372,7 @@ func runC36(c *Ctx) {
 		addsAll := false
 		ast.Inspect(fn.Body(), func(nd ast.Node) bool {
 			if rs, ok := nd.(*ast.RangeStmt); ok && len(rs.Body.List) >= 2 {
-				if strings.HasSuffix(strings.ReplaceAll(stmtText(p,rs.Body.List[len(rs.Body.List)-1]), " ", ""), ".add(s)") {
+				if matchShape("§aggr.add(§s)", stmtText(p, rs.Body.List[len(rs.Body.List)-1]), shapeBind{}) {
 					addsAll = true
 				}
 			}
@@ -376,35 +388,50 @@ func runC36(c *Ctx) {
 	if fn := p.Func(rel, "", "downsampleRawLoop"); fn != nil {
 		info := fn.Info()
 		ok, n := false, 0
+		// the batch is whatever is handed to the batch function (a func-typed parameter)
+		var batch types.Object
+		ast.Inspect(fn.Body(), func(nd ast.Node) bool {
+			if call, isCall := nd.(*ast.CallExpr); isCall && len(call.Args) >= 1 {
+				if id, isId := unparen(call.Fun).(*ast.Ident); isId {
+					if v, isVar := objOf(info, id).(*types.Var); isVar {
+						if _, isSig := v.Type().Underlying().(*types.Signature); isSig && batch == nil {
+							batch = objOf(info, call.Args[0])
+						}
+					}
+				}
+			}
+			return true
+		})
 		ast.Inspect(fn.Body(), func(nd ast.Node) bool {
 			as, isAs := nd.(*ast.AssignStmt)
-			if !isAs || len(as.Rhs) != 1 {
+			if !isAs || len(as.Rhs) != 1 || batch == nil {
 				return true
 			}
 			call, isCall := unparen(as.Rhs[0]).(*ast.CallExpr)
-			if !isCall || len(call.Args) != 2 || canon(call.Args[0]) != "batch" {
+			if !isCall || len(call.Args) != 2 || objOf(info, call.Args[0]) != batch {
 				return true
 			}
 			if id, isId := call.Fun.(*ast.Ident); !isId || id.Name != "append" {
 				return true
 			}
 			n++
+			el := canon(call.Args[1])
 			nanV, nanH := false, false
 			for _, g := range guardsOf(p, fn, as) {
 				// `if s.fh != nil && math.IsNaN(s.fh.Sum) { continue }`: its negation is what we need
 				// (not a histogram, or a histogram whose sum is a number)
 				if !g.Pol {
-					if t := canon(g.Cond); t == "s.fh!=nil&&math.IsNaN(s.fh.Sum)" || t == "math.IsNaN(s.fh.Sum)&&s.fh!=nil" {
+					if t := canon(g.Cond); t == el+".fh!=nil&&math.IsNaN("+el+".fh.Sum)" || t == "math.IsNaN("+el+".fh.Sum)&&"+el+".fh!=nil" {
 						nanH = true
 					}
 				}
 				refine(g.Cond, g.Pol, func(atom ast.Expr, t bool) {
 					if c2, isC := unparen(atom).(*ast.CallExpr); isC && !t {
 						if f := calleeOf(info, c2); f != nil && f.Name() == "IsNaN" && len(c2.Args) == 1 {
-							switch {
-							case strings.HasSuffix(canon(c2.Args[0]), ".v"):
+							switch canon(c2.Args[0]) {
+							case el + ".v":
 								nanV = true
-							case strings.HasSuffix(canon(c2.Args[0]), ".fh.Sum"):
+							case el + ".fh.Sum":
 								nanH = true
 							}
 						}
